@@ -68,6 +68,7 @@ type histStats struct {
 	dense                                                bool
 	snapshots, pinnedQueries                             int
 	snapWithMem, snapAfterMerge, pinAcrossMerge          bool
+	loneMemPart                                          bool // a memory-part merge round met a memory part that is alone in its segment
 }
 
 func caseSids(c mCase) []int {
@@ -353,14 +354,52 @@ func runMeasureHistory(x *verifkit.Ctx, c mCase) (st histStats, err error) {
 				flushedBatches = len(allBatches)
 			}
 		case "mergemem":
+			runsBefore := tb.memRuns()
+			filesBefore := 0
+			for _, pi := range tb.parts() {
+				if !pi.mem {
+					filesBefore++
+				}
+			}
 			if tb.mergeMem() {
 				st.memMerges++
 				flushedBatches = len(allBatches)
 			}
-			// a merge round replaces every group of >= 2 memory parts of one segment by its merged part:
-			// neither the inputs nor a second copy may stay visible (a reader would see both)
-			if perr := tb.memGroupsMerged(); perr != nil {
-				return st, fmt.Errorf("%s: %v", what, perr)
+			// a merge round merges the memory parts of ONE segment with each other: a memory part that is alone in its
+			// segment stays as it is, and every group of >= 2 becomes exactly one file part (a part never spans segments)
+			stay := map[uint64]bool{}
+			gone := map[uint64]bool{}
+			groups := 0
+			for _, run := range runsBefore {
+				if len(run) == 1 {
+					stay[run[0]] = true
+					if len(runsBefore) > 1 {
+						st.loneMemPart = true
+					}
+				} else {
+					groups++
+					for _, id := range run {
+						gone[id] = true
+					}
+				}
+			}
+			filesAfter := 0
+			for _, pi := range tb.parts() {
+				if pi.mem {
+					delete(stay, pi.id)
+					if gone[pi.id] {
+						// neither the inputs nor a second copy may stay visible (a reader would see both)
+						return st, fmt.Errorf("%s: memory part %d was merged (runs %v) but is still in the snapshot next to the merged part", what, pi.id, runsBefore)
+					}
+				} else {
+					filesAfter++
+				}
+			}
+			if len(stay) > 0 {
+				return st, fmt.Errorf("%s: memory part(s) %v were alone in their segment (runs %v) but were merged away: the merged part spans two segments", what, stay, runsBefore)
+			}
+			if filesAfter-filesBefore != groups {
+				return st, fmt.Errorf("%s: %d groups of >= 2 memory parts of one segment (runs %v) became %d file parts", what, groups, runsBefore, filesAfter-filesBefore)
 			}
 		case "snapshot":
 			// C19: a file snapshot taken now opens as a table holding exactly the flushed batches
@@ -680,6 +719,7 @@ type genProfile struct {
 	bigBatch            bool
 	maintenance         bool // flush / merge / reopen ops between writes
 	hostileValues       bool
+	multiSeg            bool // memory parts of several segments always pile up (liaison write queue)
 }
 
 func genTagVal(t *rapid.T, typ string, hostile bool, label string) mVal {
@@ -1081,13 +1121,25 @@ func genSplitCase(t *rapid.T, p genProfile, extra []string) mCase {
 	c := mCase{Schemas: genSchemas(t, p)}
 	var seq int64
 	nb := rapid.IntRange(2, p.maxBatches).Draw(t, "batches")
-	multiSeg := rapid.IntRange(0, 2).Draw(t, "multiseg") == 0
+	multiSeg := rapid.IntRange(0, 2).Draw(t, "multiseg") == 0 || p.multiSeg
+	// in a write-queue table every memory part carries the (non-zero) id of its segment; 0 only occurs in a
+	// table that belongs to one segment, where no part carries an id
+	segOf := func() int64 {
+		if !multiSeg {
+			return 0
+		}
+		return int64(rapid.IntRange(1, 3).Draw(t, "seg"))
+	}
 	for b := 0; b < nb; b++ {
 		w := mOp{Kind: "write", Rows: genRows(t, p, c.Schemas[0], rapid.IntRange(1, p.maxRows).Draw(t, "rows"), &seq)}
 		if multiSeg {
 			// memory parts of several segments pile up in one table (a liaison write queue): runs of 2..3 per segment
 			w.Seg = int64(1 + b%3)
-			c.Ops = append(c.Ops, w, mOp{Kind: "write", Seg: w.Seg, Rows: genRows(t, p, c.Schemas[0], rapid.IntRange(1, p.maxRows).Draw(t, "rowsb"), &seq)})
+			c.Ops = append(c.Ops, w)
+			if rapid.IntRange(0, 2).Draw(t, "pair") > 0 {
+				// usually two memory parts per segment; sometimes one that is alone in its segment
+				c.Ops = append(c.Ops, mOp{Kind: "write", Seg: w.Seg, Rows: genRows(t, p, c.Schemas[0], rapid.IntRange(1, p.maxRows).Draw(t, "rowsb"), &seq)})
+			}
 			if b%2 == 1 {
 				// >= 2 memory parts of each of two segments are pending: one merge round handles both groups
 				c.Ops = append(c.Ops, mOp{Kind: "mergemem"})
@@ -1103,7 +1155,7 @@ func genSplitCase(t *rapid.T, p genProfile, extra []string) mCase {
 			case "merge":
 				c.Ops = append(c.Ops, mOp{Kind: "merge", Pick: rapid.SliceOfN(rapid.IntRange(0, 7), 2, 4).Draw(t, "pick")})
 			case "write":
-				c.Ops = append(c.Ops, mOp{Kind: "write", Rows: genRows(t, p, c.Schemas[0], rapid.IntRange(1, p.maxRows).Draw(t, "rows2"), &seq)})
+				c.Ops = append(c.Ops, mOp{Kind: "write", Seg: segOf(), Rows: genRows(t, p, c.Schemas[0], rapid.IntRange(1, p.maxRows).Draw(t, "rows2"), &seq)})
 			case "qopen":
 				slot := rapid.IntRange(1, 3).Draw(t, "slot")
 				c.Ops = append(c.Ops, mOp{Kind: "qopen", Slot: slot, Query: genQuery(t, p, c.Schemas)})
@@ -1113,7 +1165,7 @@ func genSplitCase(t *rapid.T, p genProfile, extra []string) mCase {
 					case "merge":
 						c.Ops = append(c.Ops, mOp{Kind: "merge", Pick: rapid.SliceOfN(rapid.IntRange(0, 7), 2, 4).Draw(t, "wpick")})
 					case "write":
-						c.Ops = append(c.Ops, mOp{Kind: "write", Rows: genRows(t, p, c.Schemas[0], rapid.IntRange(1, p.maxRows).Draw(t, "wrows"), &seq)})
+						c.Ops = append(c.Ops, mOp{Kind: "write", Seg: segOf(), Rows: genRows(t, p, c.Schemas[0], rapid.IntRange(1, p.maxRows).Draw(t, "wrows"), &seq)})
 					case "mergemem":
 						c.Ops = append(c.Ops, mOp{Kind: "mergemem"})
 					default:
@@ -1161,6 +1213,33 @@ func TestVerifC05Measure(t *testing.T) {
 			return nil
 		},
 		MinLabelFrac: map[string]float64{"query pinned across a publication": 0.3, "file merge": 0.2},
+	})
+}
+
+func TestVerifC17MeasureSegments(t *testing.T) {
+	p := genProfile{maxSeries: 4, maxTimes: 10, maxBatches: 6, maxRows: 15, versions: []int64{1, 2, 3}, multiSeg: true}
+	verifkit.Run(t, verifkit.Spec[mCase]{
+		Property: "C17", Unit: "measure_wqueue_segments",
+		Rule: "the coordinator's write queue table of the measure engine: memory parts of several time segments pile up in one table (1..2 per segment and round), " +
+			"merge rounds of memory parts (the step that produces the parts shipped to the data nodes), flushes, file merges and queries in between; oracle: a merge " +
+			"round merges only memory parts of ONE segment with each other - a memory part that is alone in its segment stays, every group of >= 2 becomes exactly " +
+			"one file part - so that no shipped part spans two segments (the data node files a part under the segment of its minimum timestamp), and every query " +
+			"equals the model; non-trivial = a merge round that meets a memory part alone in its segment next to other segments' parts",
+		Gen:      func(t *rapid.T, _ *verifkit.KnownSet) mCase { return genSplitCase(t, p, nil) },
+		SampleOf: sampleOfCase,
+		Check: func(x *verifkit.Ctx, c mCase) error {
+			st, err := runMeasureHistory(x, c)
+			if err != nil {
+				return err
+			}
+			x.LabelIf(st.memMerges > 0, "memory-part merge round")
+			x.LabelIf(st.loneMemPart, "memory part alone in its segment at a merge round")
+			if st.loneMemPart {
+				x.NonTrivial()
+			}
+			return nil
+		},
+		MinLabelFrac: map[string]float64{"memory-part merge round": 0.5, "memory part alone in its segment at a merge round": 0.2},
 	})
 }
 
